@@ -8,9 +8,63 @@ cut_term: exactly the frames complete within the prefix are handed over (a block
 also hands the truncated bytes to json.loads, which must reject them: the error handler, never
 handle_message, sees them) and the loop ends normally.
 Not covered here (the other half of C15): the server/client wrappers around the loop and failing writers."""
-import json, os
+import asyncio, io, json, logging, os, signal, socket, struct, subprocess, sys, threading, time
 import core, c02
 from c02 import H, B, jbody, py_frame, KINDS, DEFAULT_LIMIT
+
+SERVER_SCRIPT = os.path.join(core.ROOT, "harness", "servers", "c15_server.py")
+
+
+# ------------------------------------------------------------------ a real LSP session
+def lsp_session():
+    """Frames a real LanguageServer understands; requests interleaved with notifications that mutate state."""
+    req = lambda i, m, p: jbody({"jsonrpc": "2.0", "id": i, "method": m, "params": p})
+    note = lambda m, p: jbody({"jsonrpc": "2.0", "method": m, "params": p})
+    doc = "file:///c15.txt"
+    chg = lambda v, t: note("textDocument/didChange", {"textDocument": {"uri": doc, "version": v},
+                                                       "contentChanges": [{"text": t}]})
+    return [
+        (0, b"", req(1, "initialize", {"processId": None, "rootUri": None, "capabilities": {}})),
+        (1, b"application/vscode-jsonrpc; charset=utf-8", note("initialized", {})),
+        (0, b"", note("textDocument/didOpen", {"textDocument": {"uri": doc, "languageId": "x", "version": 1, "text": "h\u00e9llo\n"}})),
+        (2, b"utf8", req("a", "t/echo", {"n": 1})),
+        (0, b"", chg(2, "w\u00f6rld \u20ac\n")),
+        (0, b"", req(2, "t/echo", {"n": 2})),
+        (0, b"", chg(3, "final \U0001F60B\n")),
+        (0, b"", req(3, "shutdown", None)),
+    ]
+
+
+def frame_ends(msgs):
+    ends, off = [], 0
+    for m in msgs:
+        off += len(py_frame(*m)); ends.append(off)
+    return ends
+
+
+def sample_cuts(msgs, n, rng):
+    """Offsets before the first byte, inside headers, inside bodies, between frames, at the end."""
+    ends = frame_ends(msgs)
+    total = ends[-1]
+    starts = [0] + ends[:-1]
+    pts = {0, total, 1, total - 1}
+    for st, en in zip(starts, ends):
+        pts.update({st, st + 5, st + 17, en - 3, en - 1, en})
+    pts = sorted(p for p in pts if 0 <= p <= total)
+    if len(pts) > n:
+        keep = {0, total}
+        keep.update(rng.sample(pts, n - 2))
+        pts = sorted(keep)
+    elif len(pts) < n:
+        extra = set(pts)
+        while len(extra) < min(n, total + 1):
+            extra.add(rng.randrange(total + 1))
+        pts = sorted(extra)
+    return pts
+
+
+def complete_in(msgs, cut):
+    return sum(1 for e in frame_ends(msgs) if e <= cut)
 
 
 def sessions(rng, thorough):
@@ -33,11 +87,15 @@ def sessions(rng, thorough):
 
 class C15(c02.C02):
     id = "C15"
-    modules = ["Proofs.FramingProofs", "Proofs.FramingProofsFrames", "Proofs.FramingProofsCut", "Props.C15"]
+    modules = ["Proofs.FramingProofs", "Proofs.FramingProofsFrames", "Proofs.FramingProofsCut",
+               "Proofs.FramingProofsWrap", "Props.C15"]
     obligations = ["step_app", "run_app", "chunk_independence", "run_eof_done", "run_frame", "parse_cl_no_lf",
                    "partial_line", "partial_body", "cut_inside_frame", "loop_on_prefix", "prefix_dispatch_complete_frames",
                    "terminates_normally", "no_partial_dispatch", "cut_bodies_full", "conforming_all",
-                   "C15_framing", "C15_cut_inside_body", "C15_nonvacuous"]
+                   "wrapper_releases", "wrapper_releases_any", "tcp_callback_closes_writer", "wrapper_returns_iff",
+                   "send_data_never_raises", "send_data_effects",
+                   "C15_framing", "C15_cut_inside_body", "C15_nonvacuous", "C15_wrappers",
+                   "C15_refuted_tcp_callback", "C15_refuted_start_io_sync", "C15_send_data", "C15_send_data_nonvacuous"]
     coq_targets = ["Props/C15.vo", "Extract/ExtractC15.vo"]
     COQCHK = "Pygls.Props.C15"
     rule = ("sessions of 1-6 JSON-RPC frames (three header layouts, multi-byte UTF-8, header text inside a body) x EVERY "
@@ -153,6 +211,326 @@ class C15(c02.C02):
                     cases.append(c)
         res = core.evaluate(self, chk, cases)
         return [r for r in res if r["verdict"] == "violation"][:1]
+
+    # ------------------------------------------------------------ runtime clauses (extra_checks)
+    def extra_checks(self, chk):
+        viol = list(super().extra_checks(chk) or [])       # driver sanity (+ coqchk in the thorough tier)
+        cov = dict(getattr(self, "extra_coverage", {}) or {})
+        logging.disable(logging.CRITICAL)
+        for name, fn in (("wrappers_inprocess", self.check_wrappers_inprocess),
+                         ("failing_writers", self.check_failing_writers),
+                         ("real_servers", self.check_real_servers)):
+            t0 = time.time()
+            v, n = fn(chk)
+            cov[name] = {"cases": n, "violations": len(v), "wall_s": round(time.time() - t0, 2)}
+            viol += v
+        self.extra_coverage = cov
+        return viol
+
+    @staticmethod
+    def _viol(case, impl, S):
+        return {"case": case, "impl": impl, "S": S, "verdict": "violation"}
+
+    # -- (1) the real start_io wrappers, in process, at sampled / every offset
+    def check_wrappers_inprocess(self, chk):
+        from pygls.lsp.server import LanguageServer
+        msgs = lsp_session()
+        data = b"".join(py_frame(*m) for m in msgs)
+        cuts = range(len(data) + 1) if not chk.quick else sample_cuts(msgs, 40, chk.rng)
+        viol, n = [], 0
+
+        def on_alarm(signum, frame):
+            raise c02.HarnessTimeout()
+        old = signal.signal(signal.SIGALRM, on_alarm)
+        try:
+            for cut in cuts:
+                for mode in ("sync-eof", "sync-reset", "async-eof"):
+                    n += 1
+                    srv = LanguageServer("c15", "1")
+                    handled = []
+                    orig = srv.protocol.handle_message
+                    srv.protocol.handle_message = lambda m, _o=orig: (handled.append(1), _o(m))[1]
+                    pool = srv.thread_pool
+                    prefix = data[:cut]
+                    wt = None
+                    try:
+                        signal.setitimer(signal.ITIMER_REAL, 20)
+                        if mode == "sync-eof":
+                            srv._start_io_sync(io.BytesIO(prefix), io.BytesIO())
+                        elif mode == "sync-reset":
+                            srv._start_io_sync(c02.ResetReader([prefix]), io.BytesIO())
+                        else:
+                            r, w = os.pipe()
+                            rd = os.fdopen(r, "rb")
+                            wt = threading.Thread(target=c02.pipe_writer, args=(w, [prefix], 0), daemon=True)
+                            wt.start()
+                            try:
+                                srv._start_io_async(rd, io.BytesIO())
+                            finally:
+                                rd.close()
+                        ret = "returns"
+                    except c02.HarnessTimeout:
+                        ret = "hang"
+                    except BaseException as e:      # noqa
+                        ret = "raise:" + type(e).__name__
+                    finally:
+                        signal.setitimer(signal.ITIMER_REAL, 0)
+                        if wt is not None:
+                            wt.join(5)
+                    ev = getattr(srv, "_stop_event", None)
+                    try:
+                        pool.submit(lambda: None); down = False
+                        pool.shutdown()
+                    except RuntimeError:
+                        down = True
+                    impl = {"ret": ret, "stop_set": bool(ev is not None and ev.is_set()), "pool_down": down,
+                            "handled": len(handled)}
+                    S = {"ret": "returns", "stop_set": True, "pool_down": True, "handled": complete_in(msgs, cut)}
+                    if impl != S:
+                        viol.append(self._viol({"k": "wrapper", "mode": mode, "cut": cut}, impl, S))
+            # a loop that ends with an exception (int() refuses 4301 digits): released all the same, propagated
+            for which in ("_start_io_sync", "_start_io_async"):
+                n += 1
+                srv = LanguageServer("c15", "1")
+                pool = srv.thread_pool
+                bad = b"Content-Length: " + b"0" * 4300 + b"2\r\n\r\n{}"
+                try:
+                    signal.setitimer(signal.ITIMER_REAL, 20)
+                    getattr(srv, which)(io.BytesIO(bad), io.BytesIO())
+                    ret = "returns"
+                except c02.HarnessTimeout:
+                    ret = "hang"
+                except BaseException as e:      # noqa
+                    ret = "raise:" + type(e).__name__
+                finally:
+                    signal.setitimer(signal.ITIMER_REAL, 0)
+                try:
+                    pool.submit(lambda: None); down = False
+                    pool.shutdown()
+                except RuntimeError:
+                    down = True
+                impl = {"ret": ret, "stop_set": srv._stop_event.is_set(), "pool_down": down}
+                S = {"ret": "raise:ValueError", "stop_set": True, "pool_down": True}
+                if impl != S:
+                    viol.append(self._viol({"k": "wrapper", "mode": which + "/loop-raises"}, impl, S))
+        finally:
+            signal.signal(signal.SIGALRM, old)
+        return viol[:3], n
+
+    # -- (4) writers that start failing at the k-th write
+    def check_failing_writers(self, chk):
+        from pygls import io_
+        from pygls.lsp.server import LanguageServer
+        msgs = lsp_session()
+        data = b"".join(py_frame(*m) for m in msgs)
+        viol, n = [], 0
+
+        class Quiet(LanguageServer):
+            def report_server_error(self, error, source):
+                self.hook_calls.append(type(error).__name__)
+
+        def run(k, exc, quiet, hook_raises=False):
+            srv = (Quiet if quiet else LanguageServer)("c15", "1")
+            srv.hook_calls = []
+            if hook_raises:
+                def bad(error, source):
+                    srv.hook_calls.append(type(error).__name__)
+                    raise RuntimeError("hook")
+                srv.report_server_error = bad
+            echoed = []
+
+            @srv.feature("t/echo")
+            def echo(params):
+                echoed.append(getattr(params, "n", None) if not isinstance(params, dict) else params.get("n"))
+                return {"ok": True}
+            handled = []
+            orig = srv.protocol.handle_message
+            srv.protocol.handle_message = lambda m, _o=orig: (handled.append(1), _o(m))[1]
+
+            class W:
+                calls = 0; ok = 0
+                def write(self, b):
+                    W.calls += 1
+                    if k is not None and W.calls >= k:
+                        raise exc("writer failed")
+                    W.ok += 1
+                def close(self):
+                    pass
+            srv.protocol.set_writer(W())
+            stop = threading.Event()
+            loop = asyncio.new_event_loop()
+            try:
+                reader = asyncio.StreamReader(loop=loop)
+                task = loop.create_task(io_.run_async(stop, reader, srv.protocol, error_handler=srv._report_server_error))
+                c02.spin(loop)
+                reader.feed_data(data); c02.spin(loop)
+                reader.feed_eof(); c02.spin(loop)
+                if not task.done():
+                    task.cancel(); c02.spin(loop); term = "hang"
+                else:
+                    term = c02.term_of(task.exception())
+            finally:
+                loop.close()
+            doc = srv.workspace.text_documents.get("file:///c15.txt")
+            return {"term": term, "handled": len(handled), "echoed": echoed,
+                    "text": None if doc is None else doc.source, "version": None if doc is None else doc.version,
+                    "shutdown": bool(getattr(srv.protocol, "_shutdown", None))}, W, srv
+
+        base, W0, _ = run(None, OSError, True)
+        nwrites = W0.calls
+        S = {"term": "normal", "handled": len(msgs), "echoed": [1, 2], "text": "final \U0001F60B\n", "version": 3,
+             "shutdown": True}
+        n += 1
+        if base != S or nwrites < 4:
+            viol.append(self._viol({"k": "failing-writer", "from": None}, dict(base, writes=nwrites), S))
+        excs = [BrokenPipeError, OSError, ValueError]
+        for k in range(1, nwrites + 2):
+            for exc in (excs if not chk.quick else excs[: 2 if k > 2 else 3]):
+                for flavour in ("default-hook", "quiet-hook", "raising-hook"):
+                    n += 1
+                    impl, W, srv = run(k, exc, flavour == "quiet-hook", flavour == "raising-hook")
+                    bad = impl != S
+                    extra = {}
+                    if flavour != "default-hook":
+                        # the hook is called once per failed write, with the writer's exception
+                        failed = W.calls - W.ok
+                        extra = {"hook_calls": len(srv.hook_calls), "failed_writes": failed}
+                        if len(srv.hook_calls) != failed or W.calls != nwrites:
+                            bad = True
+                    if bad:
+                        viol.append(self._viol({"k": "failing-writer", "from": k, "exc": exc.__name__, "hook": flavour},
+                                               dict(impl, **extra), S))
+        return viol[:3], n
+
+    # -- (3) real start_tcp / stdio servers in subprocesses, connection cut at sampled offsets, FIN and RST
+    def check_real_servers(self, chk):
+        msgs = lsp_session()
+        data = b"".join(py_frame(*m) for m in msgs)
+        ncut = chk.n(4, 50)
+        cuts = sample_cuts(msgs, ncut, chk.rng)
+        if chk.quick:
+            ends = frame_ends(msgs)
+            cuts = [0, 20, ends[2] - 9, ends[3]]       # before the first byte, in a header, in a body, between frames
+        jobs = []
+        for cut in cuts:
+            jobs += [("tcp", "fin", cut), ("tcp", "rst", cut), ("stdio", "close", cut)]
+        jobs.append(("tcp", "overlong-line", 0))      # the loop raises ValueError inside the connection callback
+        env = dict(os.environ, PYTHONPATH=core.REPO, PYTHONHASHSEED="0")
+        results = [None] * len(jobs)
+        lock = threading.Lock()
+        it = iter(range(len(jobs)))
+
+        def worker():
+            while True:
+                with lock:
+                    i = next(it, None)
+                if i is None:
+                    return
+                try:
+                    results[i] = self._real_case(jobs[i], msgs, data, env)
+                except Exception as e:      # noqa
+                    results[i] = {"harness-error": type(e).__name__ + ": " + str(e)[:200]}
+        ths = [threading.Thread(target=worker, daemon=True) for _ in range(4)]
+        for t in ths:
+            t.start()
+        for t in ths:
+            t.join(240)
+        viol = []
+        for job, impl in zip(jobs, results):
+            S = {"handled": complete_in(msgs, job[2]), "returned": True, "stop_set": True, "pool_down": True,
+                 "exit_status": 0}
+            if impl != S:
+                viol.append(self._viol({"k": "real-server", "transport": job[0], "close": job[1], "cut": job[2]}, impl, S))
+        return viol[:3], len(jobs)
+
+    @staticmethod
+    def _free_port():
+        s = socket.socket()
+        s.bind(("127.0.0.1", 0))
+        p = s.getsockname()[1]
+        s.close()
+        return p
+
+    def _real_case(self, job, msgs, data, env, bound=15.0):
+        transport, how, cut = job
+        prefix = data[:cut]
+        want = complete_in(msgs, cut)
+        lines = []
+
+        def pump(f):
+            for ln in iter(f.readline, b""):
+                lines.append(ln.decode("utf-8", "replace").strip())
+        handled = lambda: sum(1 for x in list(lines) if x == "H")
+
+        def wait_handled(t):
+            end = time.time() + t
+            while time.time() < end and handled() < want:
+                time.sleep(0.01)
+        if transport == "tcp":
+            port = self._free_port()
+            p = subprocess.Popen([core.PY, SERVER_SCRIPT, "tcp", str(port)], env=env, stdin=subprocess.DEVNULL,
+                                 stdout=subprocess.DEVNULL, stderr=subprocess.PIPE)
+        else:
+            p = subprocess.Popen([core.PY, SERVER_SCRIPT, "stdio"], env=env, stdin=subprocess.PIPE,
+                                 stdout=subprocess.PIPE, stderr=subprocess.PIPE)
+        th = threading.Thread(target=pump, args=(p.stderr,), daemon=True)
+        th.start()
+        drain = None
+        try:
+            if transport == "tcp":
+                sock, end = None, time.time() + 10
+                while sock is None:
+                    try:
+                        sock = socket.create_connection(("127.0.0.1", port), timeout=2)
+                    except OSError:
+                        if time.time() > end or p.poll() is not None:
+                            raise
+                        time.sleep(0.03)
+                sock.sendall(prefix if how != "overlong-line" else b"X" * 70000 + b"\n")
+                wait_handled(5)
+                time.sleep(0.05)
+                if how in ("fin", "overlong-line"):
+                    sock.shutdown(socket.SHUT_WR)
+                    sock.settimeout(bound)
+                    try:
+                        while sock.recv(65536):        # read everything: the server closes its side after the loop
+                            pass
+                    except OSError:
+                        pass
+                    sock.close()
+                else:
+                    # responses (if any) are left unread; SO_LINGER 0 makes close() send RST
+                    sock.setsockopt(socket.SOL_SOCKET, socket.SO_LINGER, struct.pack("ii", 1, 0))
+                    sock.close()
+            else:
+                drain = threading.Thread(target=lambda: p.stdout.read(), daemon=True)
+                drain.start()
+                p.stdin.write(prefix)
+                p.stdin.flush()
+                wait_handled(5)
+                time.sleep(0.05)
+                p.stdin.close()
+            try:
+                rc = p.wait(bound)
+            except subprocess.TimeoutExpired:
+                rc = None
+        finally:
+            if p.poll() is None:
+                p.kill()
+                p.wait(10)
+            th.join(5)
+            if drain is not None:
+                drain.join(5)
+            for f in (p.stderr, p.stdout, p.stdin):
+                try:
+                    if f is not None:
+                        f.close()
+                except Exception:
+                    pass
+        ret = [x for x in lines if x.startswith("RETURNED") or x.startswith("RAISED")]
+        last = ret[-1] if ret else ""
+        return {"handled": handled(), "returned": last.startswith("RETURNED"), "stop_set": "stop=1" in last,
+                "pool_down": "pool=1" in last, "exit_status": rc if rc is not None else "still-running"}
 
     def distribution(self, cases):
         d = {}
